@@ -1,11 +1,18 @@
 """Correspondence of whole queries: the real library (Go runner) against the Lean model (driver)."""
 import json
 from .common import run_go, run_lean, dec_val, canon, as_multiset, enc_val, load_findings
-from .sqlgen import query_sql, item
+from .sqlgen import query_sql, item, respell
 
 
 def mk_case(doc, q, mode="seq", wrapped=False, pg=False, arr=False, consts=None, sql=None, tag=None,
             order_keys=None, source_rows=None, num_kind=None, vars=None, tables=None):
+    if sql is None and q is not None:
+        # one case in five spells some of its numeric literals another way (leading zeros, trailing .0, e0): the value is the
+        # same, so model and expectations are untouched; derived from the query itself, so a case is reproducible
+        import copy, random, zlib
+        r = random.Random(zlib.crc32(repr(q).encode()))
+        if r.random() < 0.2:
+            q = respell(copy.deepcopy(q), r, 0.2)
     return {"num_kind": num_kind, "vars": vars, "tables": tables, "doc": doc, "q": q, "mode": mode, "wrapped": wrapped, "pg": pg, "arr": arr, "consts": consts,
             "sql": sql if sql is not None else query_sql(q), "tag": tag, "order_keys": order_keys,
             "source_rows": source_rows}
